@@ -21,10 +21,10 @@ CLAIMS = {
 }
 
 CLAIMS["C20"] = {
-    "technique": "static analysis: who-may-write enumeration over object_t.uid/.euid in all units, guard dominance (edge atoms), master-approval gate reachability, who-may-call on get_empty_object",
+    "technique": "static analysis: who-may-write enumeration over object_t.uid/.euid in all units, guard dominance (edge atoms), master-approval gate reachability, who-may-call on get_empty_object, freshness of the euid gate (no LPC-running call between the last euid test and the creation, master-only hooks reported undecided)",
     "text": "Every store to uid/euid anywhere in the driver (plus bulk writes over an object_t) is enumerated and each must be an allow-listed site meeting its dominating "
             "condition (seteuid only under MASTER_APPROVED(valid_seteuid) or to 0 on the caller; export_uid only from a non-zero euid onto a zero-euid target; creation-time uid only after the creator_file apply). "
-            "Object creation (get_empty_object/compile_file/load_binary) is shown unreachable without crossing the euid gate on every CFG path. Universal over sites and paths; the data-dependent backbone branch is not decided.",
+            "Object creation (get_empty_object/compile_file/load_binary) is shown unreachable without crossing the euid gate on every CFG path. Universal over sites and paths; the data-dependent backbone branch is not decided. The euid test is repeated after any call that can run LPC code before the object is created (clone_object() tested only before loading the blueprint: found by audit, fixed).",
     "design_ref": "DESIGN.md §5 C20",
 }
 
@@ -45,10 +45,10 @@ CLAIMS["C09"] = {
 }
 
 CLAIMS["C10"] = {
-    "technique": "static analysis: sibling agreement of list-unlink sites (delta hand-over), dominance and avoid-set reachability in call_out() (dequeue-before-invoke, per-entry setjmp, release on both branches, clock after drain, destructed-target test), data-dependence of the stored revolutions/slot on delay, clock and wheel position",
+    "technique": "static analysis: sibling agreement of list-unlink sites (delta hand-over), dominance and avoid-set reachability in call_out() (dequeue-before-invoke, per-entry setjmp, release on both branches, clock after drain, destructed-target test), data-dependence of the stored revolutions/slot on delay, clock and wheel position, not-destructed edge of the function pointer's owner before call_function_pointer",
     "text": "Decides the bookkeeping mechanism of call_out for all paths: every unlink site of the delta-encoded slot lists hands the removed delta to its successor, insertion is symmetric, "
             "the entry leaves the list before its callback can run, each entry has its own recovery point and is released on both setjmp branches, and destructed targets/arguments are filtered. "
-            "The revolutions stored for a new entry depend on delay, current_time and the wheel position call_out_time (a necessary condition while the wheel may lag the clock); the timing arithmetic itself over event histories (fires exactly once, not early, not late) is not decided.",
+            "The revolutions stored for a new entry depend on delay, current_time and the wheel position call_out_time (a necessary condition while the wheel may lag the clock); the timing arithmetic itself over event histories (fires exactly once, not early, not late) is not decided. A function-pointer call_out is run only past an O_DESTRUCTED test of the pointer's owner.",
     "design_ref": "DESIGN.md §5 C10",
 }
 
@@ -86,10 +86,10 @@ CLAIMS["C12"] = {
 }
 
 CLAIMS["C17"] = {
-    "technique": "static analysis: must-pass-through (avoid-set reachability on the passing/stale edges of each staleness test, loop-iteration form for includes and inherits) in load_binary; writer/reader agreement on the preamble; bypass analysis of the include-list registration in add_program_file",
+    "technique": "static analysis: must-pass-through (avoid-set reachability on the passing/stale edges of each staleness test, loop-iteration form for includes and inherits) in load_binary; writer/reader agreement on the preamble; bypass analysis of the include-list registration in add_program_file, must-pass-through of a recording call between failed include candidates, provenance of the stat() path of the configuration stamp",
     "text": "Decides the staleness clause for all paths of load_binary: the successful return is reachable only through the passing edge of the source, driver-id, config-id, per-include and per-inherit (source and binary) tests, and no stale edge can reach it; "
             "check_times reports newer-as-stale; the preamble is written and read in one order; config_id derives from the simul_efun file's mtime only; every non-top file registered by the lexer reaches the include list the binary is checked against. "
-            "That the loaded program equals what the source compiles to (the first sentence of the property) is behavioural and not decided.",
+            "That the loaded program equals what the source compiles to (the first sentence of the property) is behavioural and not decided. Also decided: every include-list entry (a file that was included, or a place where one was looked for in vain) is tested in each iteration of the staleness loop, a failed include candidate is recorded before the next one is tried, and the configuration stamp is taken from a mudlib-relative name derived from the configured simul_efun object name.",
     "design_ref": "DESIGN.md §5 C17",
 }
 
